@@ -165,12 +165,12 @@ def t1_bounds(rule, tier, lemma=False):
         return (36, 34)
     if rule == 1:
         return (12, 10)
-    # thorough covers every Spanish/French word completely (longest: 12 bytes decomposed); the acceptance
-    # rule itself (t1_accept) is decided for tokens of up to 20 bytes there (455 s, 3 GB), the order lemma
-    # (three strings) for tokens of up to 14
+    # thorough covers every Spanish/French word completely (longest: 12 bytes decomposed) and tokens of up
+    # to 20 bytes: t1_accept 380-460 s / 3 GB, t3_lemma (three strings) 880-970 s / 4-7 GB (measured on a
+    # loaded machine)
     if tier == "quick":
         return (10, 8)
-    return (14, 12) if lemma else (20, 12)
+    return (20, 12)
 
 
 def g_t1(tier, cfgs=("s",), rules=(0, 1, 2, 3)):
@@ -207,7 +207,7 @@ def g_t3_lemma(tier, cfgs=("s",), rules=(0, 1, 2, 3)):
     for c in cfgs:
         for r in rules:
             k, w = t1_bounds(r, tier, lemma=True)
-            out.append(I("t3_lemma", cfg=c, defs=["RULE=%d" % r, "KMAX=%d" % k, "WMAX=%d" % w], flags=UW(max(k, w) + 2), cap=3000, rss=4.0))
+            out.append(I("t3_lemma", cfg=c, defs=["RULE=%d" % r, "KMAX=%d" % k, "WMAX=%d" % w], flags=UW(max(k, w) + 2), cap=3000, rss=8.0 if k > 14 else 4.0))
     return out
 
 
